@@ -19,6 +19,7 @@ import Dm.Driver.FcCmd
 
 def handle (line : String) : String :=
   let l := line.trimAscii.toString
+  if l.startsWith "dv " then Dm.DtCmd.cmdDv (l.drop 3).toString else
   if l.startsWith "fx " then Dm.FmtXCmd.cmdFx (l.drop 3).toString else
   if l.startsWith "fc " then Dm.FcCmd.cmdFc (l.drop 3).toString else
   if l.startsWith "ta " then Dm.TaCmd.cmdTa (l.drop 3).toString else
